@@ -176,6 +176,12 @@ class Repo:
         # private helpers the analyses have no model for are expanded at their call sites (see normalize.py)
         from .normalize import normalize_module
         self.expanded = {}
+        import ast as _ast
+        from .normalize import _clone
+        for m in self.modules.values():
+            # definitions as written (the normaliser removes expanded helpers from the module they live in; another module
+            # that imports such a helper still needs its body)
+            m.orig_defs = {st.name: _clone(st) for st in m.tree.body if isinstance(st, _ast.FunctionDef) and st.name.startswith('_')}
         for m in self.modules.values():
             n = normalize_module(m)
             if n:
